@@ -92,8 +92,13 @@ def graph_case(draw, max_tasks=8, min_tasks=1, kinds=("cmd", "exp", "group", "co
             if not cands:
                 break
             i = draw(st.sampled_from(cands))
-            kind = draw(st.sampled_from(["exit", "exit", "signal", "launch"] + (["rmout"] if rmout else [])))
-            if kind == "rmout":
+            kind = draw(st.sampled_from(["exit", "exit", "signal", "launch"] + (["rmout", "argsdir"] if rmout else [])))
+            if kind == "argsdir":
+                # exits 0, but leaves directories named args.json / options.json: the records cannot be written
+                oc[str(i)] = {"rmout": False, "argsdir": True}
+                tasks[i]["args"] = ["a", 1]
+                tasks[i]["opts"] = [["k", "v"]]
+            elif kind == "rmout":
                 # exits 0, but has removed its own output directory: whether that counts as a success is not decided by
                 # the statements (callers judge both readings); recording its arguments cannot work
                 oc[str(i)] = {"rmout": True}
@@ -520,7 +525,7 @@ def shape_labels(case):
 def judge_ambiguous(case, res, check):
     """Outcome kind `rmout` (the command exits 0 after removing its own output directory) may be reported as a success or
     as a failure: judge the run under every reading and keep the most favourable one."""
-    amb = [i for i, o in case.get("outcomes", {}).items() if "rmout" in o]
+    amb = [i for i, o in case.get("outcomes", {}).items() if "rmout" in o]   # (also the kind argsdir, which carries the key)
     if not amb:
         return check(case, res)
     best = None
